@@ -130,6 +130,16 @@ def handle (toks : List String) : String :=
       | _ + 1, _ => []
     let out := setUpSubstitutions (cps nm) (pairs n.toNat! rest)
     if out.isEmpty then "-" else " ".intercalate (out.map (fun a => showL a.1 ++ ":" ++ kindOf a.2))
+  | "newtag" :: nm :: nkw :: rest =>
+    -- c08 newtag <name> <nkw> (<key> <kind> <val>)*nkw <nattrs> (<key> <kind> <val>)*nattrs   soup.new_tag(name, attrs=…, **kw)
+    match parseAttrs nkw.toNat! rest with
+    | some (kw, na :: rest') =>
+      match parseAttrs na.toNat! rest' with
+      | some (as, []) =>
+        let out := newTagAttrs (cps nm) kw as
+        if out.isEmpty then "-" else " ".intercalate (out.map (fun a => showL a.1 ++ ":" ++ kindOf a.2))
+      | _ => "bad-args"
+    | _ => "bad-args"
   | "render" :: m :: ev :: rest =>
     match parseNode (rest.length + 1) rest with
     | some (t, []) =>
